@@ -205,3 +205,10 @@ func VerifExportPort(n *AbsfsNFS) int {
 	}
 	return n.exportServer.GetPort()
 }
+
+// ---- connections (C17) ----
+func VerifConnCounts(s *Server) (count int, inMap int) {
+	s.connMutex.Lock()
+	defer s.connMutex.Unlock()
+	return s.connCount, len(s.activeConns)
+}
